@@ -5,6 +5,7 @@ This includes `.sqlfluff` and `tox.ini` files.
 
 import configparser
 
+from sqlfluff.core.errors import SQLFluffUserError
 from sqlfluff.core.helpers.dict import NestedDictRecord, records_to_nested_dict
 from sqlfluff.core.types import ConfigMappingType, ConfigValueType
 
@@ -59,7 +60,12 @@ def load_ini_string(cfg_content: str) -> ConfigMappingType:
     config.optionxform = lambda option: option  # type: ignore
 
     # Read the content.
-    config.read_string(cfg_content)
+    try:
+        config.read_string(cfg_content)
+    except configparser.Error as err:
+        # A file which isn't valid ini syntax (e.g. no section header) is
+        # a configuration error by the user, not an internal one.
+        raise SQLFluffUserError(f"Unable to parse config file: {err}")
 
     # Build up a buffer of config values.
     config_buffer: list[NestedDictRecord[ConfigValueType]] = []
